@@ -193,7 +193,7 @@ def fixed_scenarios():
     # push batcher; ApplyBatch entries may carry the batch's number
     big_push = [{'a': 'join'}, {'a': 'sleep', 'ms': 1500}, {'a': 'w', 'op': t3('v1', 'v2', 'v3')}, {'a': 'sleep', 'ms': 600},
                 {'a': 'w', 'op': [{'k': 'k2', 'v': 'v4'}]}, {'a': 'sleep', 'ms': 600}, {'a': 'abn', 'op': t3('v5', 'TOMB', 'v6')},
-                {'a': 'sleep', 'ms': 600}, {'a': 'ab', 'op': t3('v7', 'v8', 'v9')}]
+                {'a': 'sleep', 'ms': 600}, {'a': 'ab', 'op': [{'k': 'k1', 'v': 'v7'}, {'k': 'k2', 'v': 'v8'}]}]
     numbered = [{'a': 'join'}, {'a': 'sleep', 'ms': 1500}, {'a': 'abn', 'op': t3('v1', 'v2', 'v3')}, {'a': 'sleep', 'ms': 700},
                 {'a': 'w', 'op': [{'k': 'k1', 'v': 'v4'}]}, {'a': 'abn', 'op': t3('TOMB', 'v5', 'v6')}, {'a': 'sleep', 'ms': 400},
                 {'a': 'ab', 'op': t3('v7', 'v8', 'TOMB')}, {'a': 'w', 'op': t3('v9', 'v1', 'v2')}]
@@ -317,7 +317,7 @@ def sys_selftest(ctx, runs):
     """A sample that is no prefix state / a reported sequence beyond the applied prefix / a missing convergence must be rejected."""
     for r in runs:
         ss = [i for i, e in enumerate(r) if e['e'] == 's' and e['rep'] > 0]
-        if r[-1]['e'] == 'conv' and ss:
+        if r[-1]['e'] == 'conv' and ss and not any(e['e'] == 'rrestart' for e in r):
             r1 = copy.deepcopy(r)
             r1[ss[-1]]['st']['k1'] = 'v9' if r1[ss[-1]]['st']['k1'] != 'v9' else 'v8'
             r2 = copy.deepcopy(r)
@@ -325,10 +325,12 @@ def sys_selftest(ctx, runs):
                 r2[i]['rep'] += 1000
             r3 = copy.deepcopy(r)
             r3[-1] = {'e': 'noconv'}
-            for rr, name in ((r1, 'corrupted sample'), (r2, 'reported beyond applied'), (r3, 'no convergence')):
+            r4 = copy.deepcopy(r)
+            r4[-1]['rcount'] -= 1
+            for rr, name in ((r1, 'corrupted sample'), (r2, 'reported beyond applied'), (r3, 'no convergence'), (r4, 'skipped entry (count)')):
                 if not validate_batch(ctx, 'TRACE_Repl', 'TRACE_Repl.cfg', [rr], 'selftest', bad_events=BAD):
                     raise Infra(f'binding self-test failed: a trace with a {name} was accepted')
-            ctx.notes['binding_selftest_system'] = 'traces with a corrupted sample / a reported sequence beyond the applied prefix / without convergence are rejected by TLC'
+            ctx.notes['binding_selftest_system'] = 'traces with a corrupted sample / a reported sequence beyond the applied prefix / a wrong count of applied entries / without convergence are rejected by TLC'
             return
     raise Infra('binding self-test: no converged system trace with a non-trivial sample')
 
@@ -466,7 +468,7 @@ def check_C13(ctx):
                    'classes and three codecs, with the predicted accepted/gap outcome, applied entry sequence, expected and highest applied '
                    'number checked after every delivery; (2) system scenarios (real primary + real replica over loopback TCP) whose traces TLC '
                    'validates against TRACE_Repl: every 50 ms sample of the replica is the state after some prefix of the primary history, '
-                   'prefix and reported sequence never go back, reported is covered by the applied prefix. distinct_nontrivial = distinct '
+                   'prefix and reported sequence never go back, reported is covered by the applied prefix, and at convergence the replica engine has been handed exactly as many entries as the primary logged (its own sequence counter). distinct_nontrivial = distinct '
                    'schedules + system traces')
 
 
